@@ -249,6 +249,9 @@ def rule_redeclared_running_step(ctx):
     upd = [c for c in calls_in(rs.node) if callee_name(c) == "update_file_hashes"]
     ok_out = bool(upd) and any(k.arg == "cause" and "FAILED" in ast.unparse(k.value) for k in upd[0].keywords) and "compute_out_hashes" in rsrc and re.search(r"run\.launched_decl\[2\]", rsrc) is not None and seq.index("update_file_hashes") < seq.index("set_state")
     ctx.check(ok_out, rs.fq, "the outputs the command was launched with are hashed and recorded before the restart", "the early return skips the output hashes: a file written by the replaced command under a path the new declaration no longer has keeps state PLANNED without hash, is forgotten at cleanup and stays on disk", "compute_out_hashes(launched outputs) -> update_file_hashes(cause=FAILED)")
+    starts = [c for c in calls_in(ej.node) if isinstance(c.func, ast.Attribute) and c.func.attr == "discard" and ast.unparse(c.func.value).endswith("declared_again")]
+    first_await = min((a.lineno for a in ast.walk(ej.node) if isinstance(a, ast.Await)), default=10 ** 9)
+    ctx.check(len(starts) == 1 and starts[0].lineno < first_await, ej.fq, "a run starts without a note left by an earlier command of the step", "a note that survived an early exit discards the verdict of an unrelated later run (one needless execution)", "declared_again.discard(step.i) before the first await")
     names = [callee_name(c) for c in calls_in(rs.node)]
     ctx.check("delete_hash" in names and any(callee_name(c) == "set_state" and c.args and ast.unparse(c.args[0]) == "StepState.PENDING" for c in calls_in(rs.node)) and "mark_completed" not in names, rs.fq, "a replaced declaration ends the run without a verdict: hash deleted, step pending", "the run is completed (or keeps its hash) although the declaration it ran for is gone", "delete_hash + set_state(PENDING)")
     dec = ctx.prog.func("executor.Executor._declaration")
@@ -306,7 +309,7 @@ def rule_pool_initialised(ctx):
 
 
 RULES = [
-    Rule("R-C12-10", "a step declared again while running keeps its row and is run again afterwards", rule_redeclared_running_step, min_instances=10),
+    Rule("R-C12-10", "a step declared again while running keeps its row and is run again afterwards", rule_redeclared_running_step, min_instances=11),
     Rule("R-C12-9", "the resource pool is initialised from the command line", rule_pool_initialised, min_instances=1),
     Rule("R-C12-8", "steps (re)attached inside a hold block are re-examined (hold clause relies on the _safe recomputation)", C10.rule_step_overrides, min_instances=8),
     Rule("R-C12-7", "resource claims are replaced on declaration", rule_claims_replaced, min_instances=7),
@@ -319,6 +322,7 @@ RULES = [
 ]
 
 MUTANTS = [
+    Mutant("stale-note-survives-early-exit", "executor.py", in_function("Executor.execute_job", replace_once("        self.workflow.declared_again.discard(step.i)\n", "")), ("R-C12-10",)),
     Mutant("redeclaration-compared-by-value-only", "step.py", in_function("Step.initialize_row", replace_once("        if still_running:\n            self.graph.declared_again.add(self.i)\n", "")), ("R-C12-10",)),
     Mutant("replaced-command-outputs-forgotten", "executor.py", in_function("Executor._restart_if_declared_again", replace_once("                self.workflow.update_file_hashes(result.new_hashes, cause=HashUpdateCause.FAILED)\n", "                pass\n")), ("R-C12-10",)),
     Mutant("declared-again-never-cleared", "executor.py", in_function("Executor._restart_if_declared_again", replace_once("            self.workflow.declared_again.discard(run.step.i)\n", "")), ("R-C12-10",)),
